@@ -585,17 +585,25 @@ func (m *Machine) actSchedule(t *rapid.T, onlyPipeline string, inWindow bool) {
 					victimRec = o
 				}
 			}
-			victimRec.Replaced = true
-			victimRec.ReplacedSeq = seq
 			m.w.Stats.hit("replaced")
 			if vs := s1.Jobs[victimRec.ID]; vs == nil || !vs.Canceled || vs.Start != nil {
+				// (it keeps its place in the monitor's view of the queue: what happens to it later is judged
+				// as for any waiting job)
 				m.fail("C05", "replace: the most recently queued job #%d is not reported canceled", victimRec.AcceptIdx)
 				m.fail("C07", "replace: the most recently queued job #%d is not reported canceled", victimRec.AcceptIdx)
+			} else {
+				victimRec.Replaced = true
+				victimRec.ReplacedSeq = seq
 			}
 		}
 		for _, o := range waiting {
 			if o == victimRec {
 				continue
+			}
+			if os := s1.Jobs[o.ID]; os != nil && os.Canceled && os.Start == nil && !o.CancelAcked && !o.Replaced {
+				// the runner replaced another job than the most recently queued one: the monitor follows what
+				// happened (the job is no longer waiting), the admission oracle reports it
+				o.Replaced, o.ReplacedSeq = true, seq
 			}
 			if os := s1.Jobs[o.ID]; os == nil || !os.Waiting() {
 				m.fail("C05", "schedule (%s) disturbed waiting job #%d", exp, o.AcceptIdx)
@@ -1091,6 +1099,17 @@ func (m *Machine) afterStep() {
 	for _, j := range ord {
 		js := s.Jobs[j.ID]
 		if js == nil {
+			if j.MaybePurged && j.PurgedSeq == 0 {
+				j.PurgedSeq = m.w.curSeq()
+				j.PurgedStarted = m.mon.startSeq[j.ID] != 0
+				if j.PurgedStarted {
+					if run := m.mon.exec[j.Pipeline][j.ID]; run {
+						m.w.Stats.hit("purged-while-executing")
+					}
+				} else {
+					m.w.Stats.hit("purged-while-waiting")
+				}
+			}
 			if !m.cfg.Retention && !j.MaybePurged {
 				m.fail("C15", "accepted job #%d is no longer reported", j.AcceptIdx)
 				m.fail("C03", "accepted job #%d is no longer reported", j.AcceptIdx)
